@@ -44,7 +44,8 @@ type Ctx struct {
 	SSA     map[string]*ssa.Package // by import path
 	Types   map[string]*types.Package
 	PkgOf   map[string]*packages.Package
-	Funcs   []*ssa.Function // all repo functions incl. anonymous ones, sorted by position
+	helpers map[*ssa.Function]*helperInfo // private helpers (inline.go)
+	Funcs   []*ssa.Function               // all repo functions incl. anonymous ones, sorted by position
 	CG      *callgraph.Graph
 	CHA     *callgraph.Graph
 	UseCHA  bool
@@ -135,6 +136,8 @@ func Load(repo string, cfg Config, overlay map[string][]byte) *Ctx {
 		}
 		return c.Funcs[i].String() < c.Funcs[j].String()
 	})
+	curCtx = c
+	c.buildHelperIndex()
 	renamedAnchors = nil
 	c.matchRenamedTypes()
 	for _, fn := range c.Funcs {
@@ -576,6 +579,37 @@ func instrIndex(in ssa.Instruction) int {
 
 // dominates reports whether a executes before b on every path reaching b.
 func dominates(a, b ssa.Instruction) bool {
+	if a.Parent() != b.Parent() {
+		// across the call site(s) of a private helper (inline.go)
+		if lbs := liftAll(b, a.Parent(), 0); len(lbs) > 0 {
+			for _, lb := range lbs {
+				if !(a == lb || dominates(a, lb)) {
+					return false
+				}
+			}
+			return true
+		}
+		if las := liftAll(a, b.Parent(), 0); len(las) > 0 {
+			// a happens on every path through its helper(s), and some call of the helper comes before b
+			for x := a; x.Parent() != b.Parent(); {
+				if !onEveryPath(x) {
+					return false
+				}
+				h := helperOf(x.Parent())
+				if h == nil {
+					return false
+				}
+				x = h.site
+			}
+			for _, la := range las {
+				if dominates(la, b) {
+					return true
+				}
+			}
+			return false
+		}
+		return false
+	}
 	if a.Block() == b.Block() {
 		return instrIndex(a) < instrIndex(b)
 	}
@@ -661,6 +695,16 @@ func guardsAt(b *ssa.BasicBlock) []Guard {
 				out = append(out, expandPhiGuard(ifi.Cond, si == 0, ifi, 0)...)
 			}
 		}
+	}
+	return out
+}
+
+// guardsAtDeep: guardsAt plus, inside a private helper, what holds at its only call site (inline.go). Opt-in:
+// rules that ask "is this under any condition at all" must not inherit the caller's conditions.
+func guardsAtDeep(b *ssa.BasicBlock) []Guard {
+	out := guardsAt(b)
+	if h := helperOf(b.Parent()); h != nil && b.Parent().Parent() == nil && len(h.sites) == 1 {
+		out = append(out, guardsAtDeep(h.site.Block())...)
 	}
 	return out
 }
